@@ -1101,3 +1101,7 @@ M('C12', 'exported-helper-token-write-allowance', TOK, _TOK_CTOR, "#[contractimp
 M('C17', 'ft-execute_batch-no-membership', OPS, "        operator.require_auth();\n\n        Self::ensure_is_operator(&env, &operator)?;\n\n        let mut results", "        operator.require_auth();\n\n        let mut results", 'C17.R1', base='features/gasops-f2')
 MUTANTS[-1]['also'] = [("            Self::ensure_is_operator(&env, &operator)?;\n\n            let res: Val", "            let res: Val")]
 M('C17', 'ft-execute_batch-no-auth', OPS, "        operator.require_auth();\n\n        Self::ensure_is_operator(&env, &operator)?;\n\n        let mut results", "        Self::ensure_is_operator(&env, &operator)?;\n\n        let mut results", 'C17.R1', base='features/gasops-f2')
+
+# ---------------- effects hidden behind library code that calls back into workspace trait impls ----------------
+M('C17', 'hidden-effect-in-handwritten-iterator', OPS, "        let res: Val = env.invoke_contract(&contract, &func, args);\n\n        extend_instance_ttl(&env);\n\n        Ok(res)\n    }\n}\n",
+  "        let res: Val = env.invoke_contract(&contract, &func, args);\n\n        extend_instance_ttl(&env);\n\n        let _ = Grants { env: &env, who: Some(contract.clone()) }.count();\n\n        Ok(res)\n    }\n}\n\nstruct Grants<'a> {\n    env: &'a Env,\n    who: Option<Address>,\n}\n\nimpl Iterator for Grants<'_> {\n    type Item = ();\n\n    fn next(&mut self) -> Option<()> {\n        let who = self.who.take()?;\n        self.env.storage().instance().set(&DataKey::Operators(who), &true);\n        Some(())\n    }\n}\n", 'C17')
